@@ -162,6 +162,7 @@ func parseRaceText(s string) []RaceReport {
 }
 
 func stripClosure(fn string) string {
+	fn = strings.TrimSuffix(fn, "-fm") // method value wrapper
 	for {
 		i := strings.LastIndex(fn, ".func")
 		if i < 0 {
